@@ -333,7 +333,8 @@ def r05k(ctx, repo):
     # attachment test inside the traversal
     inner = fi.nested.get("get_attached_comps") if hasattr(fi, "nested") else None
     if inner is not None:
-        adds = [c for c in own_nodes(inner.node) if isinstance(c, ast.Call) and ast.unparse(c.func) == "attachments.add"]
+        att = inner.params[-1]  # (G, comp_name, direction, comps, groups, attachments): the returned set of attached groups is the last parameter
+        adds = [c for c in own_nodes(inner.node) if isinstance(c, ast.Call) and ast.unparse(c.func) == "%s.add" % att]
         ok = len(adds) == 1
         if ok:
             g = branch_guards(enclosing_stmt(adds[0]))
